@@ -1,38 +1,48 @@
 ------------------------------- MODULE Flood -------------------------------
 (***************************************************************************)
-(* Route flooding of Muti-Metroo (internal/flood Flooder + the tables of   *)
-(* internal/routing it stores into).  Properties C11 C12 C13 C14 C15, and  *)
+(* Route flooding of Muti-Metroo: internal/flood Flooder + the tables of   *)
+(* internal/routing it stores into.  Properties C11 C12 C13 C14 C15 and    *)
 (* the end-to-end part of C06.                                             *)
 (*                                                                         *)
 (* Agents are strings.  `Links` is the constant set of POTENTIAL links     *)
 (* ({a,b} sets); `up` is the set of links currently connected.  Every      *)
 (* agent has                                                               *)
 (*   ctr    the announcement sequence counter (routing.Manager.sequence,   *)
-(*          which also counts one step per configured local route),        *)
+(*          which also advances once per configured local route),          *)
 (*   seen   the seen cache, a set of <<origin, sequence>>,                  *)
 (*   tbl    its learned routes, a set of entries                            *)
 (*          [o, r, nh, m, path, seq, ann, old]:                             *)
 (*            r = "p"  agent-presence route, table key <<o, nh>>            *)
 (*                     (AgentTable keeps one entry per origin AND next hop) *)
-(*            r = "r1".. exit routes (CIDR / forward / domain tables), key  *)
+(*            r = "r1".. exit routes (CIDR / domain / forward tables), key  *)
 (*                     <<o, r>> (one entry per origin),                     *)
-(*            ann = ghost "refreshed by the origin's ann-th announcement",  *)
+(*            ann = ghost "renewed by the origin's ann-th announcement",    *)
 (*            old = LastUpdate lies before the last AgeAll.                 *)
 (* `net` is the bag of frames in flight [src,dst,o,seq,path,sb,rs,ann];     *)
 (* rs = set of [r, m] (route, advertised metric), sb = seen-by list.        *)
 (*                                                                         *)
-(* One action = one call into the flooder: AnnounceLocalRoutes, one        *)
-(* HandleRouteAdvertise (split by outcome), SendFullTable for one new      *)
-(* peer, one seen-cache expiry, one stale-route cleanup, the two halves of *)
-(* a disconnect.  Links deliver in any order; Deliver(m, TRUE) duplicates. *)
+(* One action = one call into the flooder / route manager:                 *)
+(*   Announce      AnnounceLocalRoutes                                     *)
+(*   Deliver       HandleRouteAdvertise for one frame, split by outcome    *)
+(*                 (undecodable / seen / dropped after marking / new);     *)
+(*                 keep = TRUE: the network duplicated the frame           *)
+(*   Connect, Replay          a link comes up; SendFullTable at each end   *)
+(*   Disconnect, PeerGone     a link is lost; each end drops the routes    *)
+(*                            through the lost peer                        *)
+(*   ExpireSeen    Flooder.cleanup removing one seen-cache entry           *)
+(*   AgeAll, CleanupStale     time passes; CleanupStale*Routes at an agent *)
+(* Links deliver in any order (bags; the FIFO transports are a special     *)
+(* case).                                                                  *)
 (*                                                                         *)
 (* The route-count field of the wire format is one byte; here it counts    *)
-(* modulo CntMod (standing for 256): an announcement can carry at most     *)
-(* Cap = CntMod-1 routes.                                                  *)
+(* modulo CntMod (256 in the code): an announcement can carry at most      *)
+(* Cap = CntMod-1 routes, larger sets are split.                           *)
 (*                                                                         *)
-(* Deviations (constant Dev) reproduce behaviours the ideal design         *)
-(* excludes (sensitivity of the invariants / classification of replay      *)
-(* mismatches).                                                            *)
+(* The spec describes the design that satisfies the properties.  The       *)
+(* deviations (constant Dev) reproduce what the pinned code did instead    *)
+(* (first four + DevForwardLooped) or what a regression could do; each     *)
+(* must be caught by an invariant (sensitivity), and they are used to      *)
+(* classify differences observed on the real code.                         *)
 (***************************************************************************)
 EXTENDS Integers, Sequences, FiniteSets, TLC, Json
 
